@@ -146,6 +146,9 @@ type c18Router struct {
 	HasInfo bool
 	// InfoViaState: the public info is added through the state manager.
 	InfoViaState bool
+	// ViaAddRouter: the router becomes known the way it does in the program: a
+	// handler passes the identity it has verified to the state manager.
+	ViaAddRouter bool
 	Info         m.RouterInfo
 	Universe     string
 	Offline      bool
@@ -166,6 +169,10 @@ type c18Spec struct {
 	// Deletions applied after the additions (for "new" states derived from old ones).
 	DelRouters  []netip.Addr
 	DelMappings []string
+	// ViaStateAdd: routers marked ViaAddRouter (and eased ones without info)
+	// are handed to the state manager's AddRouter, which stamps them with the
+	// current time - only where one storage is compared with its own reload.
+	ViaStateAdd bool `json:"-"`
 }
 
 func c18Addr(c *core.Case, label string) netip.Addr {
@@ -189,6 +196,7 @@ func c18GenSpec(c *core.Case, maxRouters, maxMappings int) c18Spec {
 		if c.Chance("r.info", 2, 3) {
 			r.HasInfo = true
 			r.InfoViaState = c.Chance("r.info.via-state-manager", 1, 3)
+			r.ViaAddRouter = r.InfoViaState && c.Bool("r.via-add-router")
 			r.Info.Version = c18Str(c, "i.version")
 			for k, n := 0, c.Int("i.listeners", 0, 8); k < n; k++ {
 				r.Info.Listeners = append(r.Info.Listeners, c18Str(c, "i.listener"))
@@ -225,7 +233,24 @@ func c18Apply(s *storage.JSONFileStorage, sp c18Spec) error {
 			info := r.Info
 			sr.PublicInfo = &info
 		}
-		if err := s.SaveRouter(sr); err != nil {
+		if sp.ViaStateAdd && (r.ViaAddRouter || (!r.HasInfo && r.Easing != 0 && len(r.Key)%2 == 0)) {
+			if stateMgr == nil {
+				stateMgr = state.New(vnet.NewParty(ids.Get(1)), s)
+			}
+			_ = s.DeleteRouter(r.IP)
+			given := *sr.Address
+			if err := stateMgr.AddRouter(sr.Address); err != nil {
+				return fmt.Errorf("AddRouter: %w", err)
+			}
+			back, err := s.GetRouter(r.IP)
+			if err != nil || back == nil || back.Address == nil {
+				return fmt.Errorf("router %s handed to the state manager is not in the storage: %v", r.IP, err)
+			}
+			if a := back.Address; a.IP != given.IP || a.Hash != given.Hash || a.Type != given.Type || string(a.PublicKey) != string(given.PublicKey) || a.Easing != given.Easing {
+				return fmt.Errorf("the identity stored for %s is not the one handed to the state manager: stored hash=%q type=%q key=%x easing=%d, given hash=%q type=%q key=%x easing=%d",
+					r.IP, a.Hash, a.Type, []byte(a.PublicKey), a.Easing, given.Hash, given.Type, []byte(given.PublicKey), given.Easing)
+			}
+		} else if err := s.SaveRouter(sr); err != nil {
 			return err
 		}
 		if viaState {
@@ -314,6 +339,7 @@ func TestC18RoundTrip(t *testing.T) {
 			maxR, maxM = 200, 200
 		}
 		sp := c18GenSpec(c, maxR, maxM)
+		sp.ViaStateAdd = true
 		via := c.Chance("start.via-instance", 1, 2)
 		if via {
 			c.Class("restart-through-the-instance-constructor")
@@ -1056,8 +1082,14 @@ var c18MappingCreated = regexp.MustCompile(`(?m)^(mapping .*) created=-?\d+$`)
 // the wall clock, so two runs that apply the same edits differ there).
 // Routers saved without an update time get the wall clock, too.
 func c18Loose(canon string) string {
-	return c18RouterUpdated.ReplaceAllString(c18MappingCreated.ReplaceAllString(canon, "$1"), " updated=*")
+	canon = c18RouterUpdated.ReplaceAllString(c18MappingCreated.ReplaceAllString(canon, "$1"), " updated=*")
+	// A lookup of a router (the state manager looks a router up before it adds
+	// public info) stamps its last-use time with the wall clock as well. The
+	// exact round trip of that field is TestC18RoundTrip's matter.
+	return c18RouterUsed.ReplaceAllString(canon, " used=*")
 }
+
+var c18RouterUsed = regexp.MustCompile(` used=(-?\d+/(true|false)|nil)`)
 
 var c18RouterUpdated = regexp.MustCompile(` updated=-?\d+/(true|false)`)
 
